@@ -95,7 +95,13 @@ class Connect(Contract):
             return z3.ForAll([t], z3.Implies(zh["disconnected"][t] != h0["disconnected"][t], in_log(t)))
         def inv0(i, st):
             return z3.And(i <= n, only_log_touched(st.zh))
-        inv = {("Connection.connect", 0): dict(inv=inv0, modheap=["disconnected", "has_refs", "vl_connected"], mod={"line": lambda nm: Ref(fresh(nm, I), g.Line)})}
+        spec_ = dict(inv=inv0, modheap=["disconnected", "has_refs", "vl_connected"], mod={"line": lambda nm: Ref(fresh(nm, I), g.Line)})
+        inv = {("Connection.connect", 0): spec_, ("Connection._initialize_references_or_take_back", 0): spec_}
+        inline = set()
+        try:
+            inline.add(f(C + "_initialize_references_or_take_back"))        # the take-back lives in a helper shared with the substitution of placeholders
+        except LookupError:
+            pass
         def owner(st):
             return st.attrs(s).get("_gfa")
         def log_state(st):
@@ -126,8 +132,76 @@ class Connect(Contract):
             if e == ("is_connected", "selfref_check", "search", "init", "register"):
                 return z3.And(z3.Not(dup), init_ok, z3.BoolVal(isinstance(own, Obj) and own.oid == gfa.oid), st.zh["disconnected"] == h0["disconnected"], log_closed)
             return z3.BoolVal(False)
-        return [Case("order", [s, gfa], post, pre=[n >= 0], heap=heap, zh=h0, models=models, invariants=inv,
+        return [Case("order", [s, gfa], post, pre=[n >= 0], heap=heap, zh=h0, models=models, invariants=inv, inline=inline,
                      symbols=dict(already_connected=connected, refers_to_own_name=selfref, duplicate_found=dup, duplicate_is_virtual=dup_virtual, references_can_be_initialised=init_ok,
                                   n_new_virtual_lines=n, no_other_line_is_being_connected=outer, placeholder_has_the_same_record_type=same_type),
                      replay=lambda w: {"target": "bounded.replay_helpers:connect_cases"},
                      confirm=battery_confirm, expect_paths=6)]
+
+
+@register
+class SubstituteVirtualLine(Contract):
+    fn = "gfapy/line/common/virtual_to_real.py::VirtualToReal._substitute_virtual_line"
+    props = ("C03", "C02", "C08", "C09")
+    fragment = "H"
+    doc = ("a real line takes the place of its placeholder: it adopts the placeholder's Gfa, imports the references, then the placeholder is "
+           "unregistered and only after that the line is registered (so that the identifier never names two lines), each exactly once; if "
+           "importing the references raises, neither registry operation happens")
+
+    def cases(self, ctx):
+        g = ctx.gfapy
+        import_ok = z3.Bool("references_can_be_imported")
+        s, prev, gfa = Obj(g.Line, "line"), Obj(g.Line, "previous"), Obj(g.Gfa, "gfa")
+        heap = {s.oid: {"_gfa": None}, prev.oid: {"gfa": gfa}, gfa.oid: {}}
+        def m_import(E, st, pos, kw):
+            ok_args = len(pos) == 2 and pos[1] is prev
+            yield ("raise", Exc(g.NotUniqueError), [z3.Not(import_ok)], ev(st, "import_failed"))
+            yield ("val", None, [import_ok], ev(st, "import" if ok_args else "import_wrong_args"))
+        def m_unreg(E, st, pos, kw):
+            yield ("val", None, [], ev(st, "unregister_previous" if pos[1] is prev else "unregister_other"))
+        def m_reg(E, st, pos, kw):
+            yield ("val", None, [], ev(st, "register_self" if pos[1] is s else "register_other"))
+        f = ctx.fn
+        models = {f("gfapy/line/common/virtual_to_real.py::VirtualToReal._import_references"): m_import,
+                  f("gfapy/lines/destructors.py::Destructors._unregister_line"): m_unreg, f("gfapy/lines/creators.py::Creators._register_line"): m_reg}
+        def post(kd, v, st):
+            e = tuple(st.ghost.get("events", ()))
+            own = st.attrs(s).get("_gfa")
+            if kd == "raise":
+                return z3.And(z3.BoolVal(e == ("import_failed",)), z3.Not(import_ok))
+            return z3.And(z3.BoolVal(e == ("import", "unregister_previous", "register_self")), import_ok, z3.BoolVal(isinstance(own, Obj) and own.oid == gfa.oid))
+        return [Case("order", [s, prev], post, heap=heap, models=models, symbols=dict(references_can_be_imported=import_ok), expect_paths=2)]
+
+
+@register
+class ImportReferences(Contract):
+    fn = "gfapy/line/common/virtual_to_real.py::VirtualToReal._import_references"
+    props = ("C03", "C02", "C08")
+    fragment = "H"
+    doc = ("importing the references of a placeholder: a placeholder of unknown type has no fields, so the line sets up its own references - "
+           "through the variant that takes everything back on failure; a typed placeholder hands over its reference fields and the lines it "
+           "refers to are re-pointed; in both cases the back-reference collections of the placeholder are adopted and their members re-pointed")
+
+    def cases(self, ctx):
+        g = ctx.gfapy
+        out = []
+        for prev_cls, label in ((g.line.Unknown, "unknown-placeholder"), (g.line.segment.GFA2, "typed-placeholder")):
+            s, prev = Obj(g.Line, "line"), Obj(prev_cls, "previous")
+            heap = {s.oid: {}, prev.oid: {}}
+            def mk(name):
+                def m(E, st, pos, kw):
+                    yield ("val", None, [], ev(st, name))
+                return m
+            f = ctx.fn
+            V = "gfapy/line/common/virtual_to_real.py::VirtualToReal."
+            models = {f(V + "_import_field_references"): mk("import_fields"), f(V + "_update_field_backreferences"): mk("update_field_backrefs"),
+                      f(V + "_import_nonfield_references"): mk("import_nonfield"), f(V + "_update_nonfield_backreferences"): mk("update_nonfield_backrefs"),
+                      g.Line._initialize_references: mk("plain_init")}
+            tb = ctx.fn_opt("gfapy/line/common/connection.py::Connection._initialize_references_or_take_back")
+            if tb is not None:
+                models[tb] = mk("init_with_take_back")
+            want = (("init_with_take_back",) if prev_cls is g.line.Unknown else ("import_fields", "update_field_backrefs")) + ("import_nonfield", "update_nonfield_backrefs")
+            def post(kd, v, st, want=want):
+                return z3.BoolVal(kd == "return" and tuple(st.ghost.get("events", ())) == want)
+            out.append(Case(label, [s, prev], post, heap=heap, models=models))
+        return out
